@@ -256,6 +256,24 @@ class Path:
                 self.solver.push()
                 self.solver.add(z3.Not(goal))
                 r = self.solver.check()
+                if r == z3.unknown:
+                    # a time-out must not depend on how busy the machine is: retry on a fresh solver with other seeds and a longer budget
+                    for seed, mult in ((1, 3), (7, 6)):
+                        s2 = z3.Solver()
+                        s2.set("timeout", self.ex.timeout_ms * mult)
+                        s2.set("random_seed", seed)
+                        s2.add(self.solver.assertions())
+                        r2 = s2.check()
+                        self.ex.queries += 1
+                        if r2 == z3.unsat:
+                            r = r2
+                            break
+                        if r2 == z3.sat:
+                            # let the incremental solver produce the model it is asked for below
+                            self.solver.set("timeout", self.ex.timeout_ms * mult)
+                            r = self.solver.check()
+                            self.solver.set("timeout", self.ex.timeout_ms)
+                            break
                 verdict = "proved" if r == z3.unsat else ("failed" if r == z3.sat else "unknown")
                 model = None
                 smt2 = None
